@@ -24,8 +24,22 @@ def run(ctx):
     ir = ctx.ir('USBControlEndpoint', 'usb2.control')
     fsm = ctx.the_fsm(ir)
     W = fsm.init
-    EP = '0 == ' + T + 'endpoint'
     RCV, LEN, DIR = 'setup_decoder.packet.received', 'setup_decoder.packet.length', 'setup_decoder.packet.is_in_request'
+    # the endpoint gate: the atom of the dispatch edges that is not one of the SETUP-packet conditions
+    cand = set()
+    for e in fsm.out_edges(W):
+        cand |= {a for a, p in q.atoms(e) if p and a not in (RCV, LEN, DIR)}
+    ctx.need(len(cand) == 1, 'the endpoint gate of the setup-wait state (candidates %s)' % sorted(cand))
+    EP = cand.pop()
+    want_ep = '0 == ' + T + 'endpoint'
+    live = EP == want_ep
+    if not live and EP in ir.signals:
+        d = q.comb_def(ir, EP)
+        live = d is not None and d.canon() == want_ep
+    ctx.ob('C07.endpoint-gate-live', 'USBControlEndpoint.endpoint-gate', live, fsm.state_loc[W],
+           'the endpoint gate must be the live comparison tokenizer.endpoint == endpoint number (%s): new_token is a one-cycle strobe raised in '
+           'the very cycle tokenizer.endpoint changes, so a registered or otherwise delayed copy (%s) judges a token by the previous token\'s '
+           'endpoint' % (want_ep, EP))
 
     def out(state, **kw):
         return set(state_outcomes(fsm, state, kw))
